@@ -625,7 +625,7 @@ class Fault:
 
     kind: 'fail_at' (k-th seam crossing, 0-based, raises CalledProcessError(rc)),
           'fail_role' (first crossing with that role), 'enoent_at' (k-th crossing raises OSError ENOENT),
-          'missing_binary' (every spawn raises ENOENT)"""
+          'missing_binary' (every spawn raises ENOENT), 'fail_role_all' (every crossing with that role fails)"""
 
     def __init__(self, kind, k=None, role=None, rc=128, realistic=False):
         self.kind = kind
@@ -681,6 +681,8 @@ class VcsShim:
             return "enoent"
         if f.kind == "fail_role" and f.role == role and not f.fired:
             return "cpe"
+        if f.kind == "fail_role_all" and f.role == role:
+            return "cpe"       # a failure that persists: every attempt at this step fails (a stale lock file, a dead remote)
         return None
 
     def _run(self, argv, env, stdin=None):
@@ -707,6 +709,12 @@ class VcsShim:
         if hit == "cpe":
             self.fault.fired += 1
             ev["fault"] = True
+            if self.fault.realistic == "lock":
+                err = (b"fatal: Unable to create '/w/.git/index.lock': File exists.\n\nAnother git process seems to be running in this "
+                       b"repository, e.g.\nan editor opened by 'git commit'.\n") if tool == "git" else \
+                    b"waiting for lock on working directory of /w held by process '4242' on host 'ci'\nabort: working directory of /w: timed out waiting for lock\n"
+                ev["rc"] = 128 if tool == "git" else 255
+                return (ev["rc"], b"", err)
             if self.fault.realistic:
                 rc, out, err = REALISTIC_FAILURES.get(role, (self.fault.rc, b"", b"injected failure\n"))
                 ev["rc"] = rc
